@@ -14,8 +14,8 @@ From the statement, for expression E with language L and input w:
   consumed = exactly p (source.sent == |p|, data[<context>.input] == p, the next symbol is left in the source)
   terminal <=> |p| >= 1 and p in L;    not terminal => cpppo.NonTerminal or a non-terminal end, nothing absorbed beyond p
 For bytes machines with a multi-byte symbol the prefix is taken over BYTES of the UTF-8 encoding (the lenient reading: the
-lead byte of a symbol may be consumed as long as SOME symbol of the stated input universe with that lead byte can continue
-a sentence; a stop inside a symbol is never accepting).
+first j bytes of a symbol (j = 1, 2, ...) may be consumed as long as SOME symbol of the stated input universe starting with
+those j bytes can continue a sentence; a stop inside a symbol is never accepting).
 """
 import itertools
 import re
@@ -27,7 +27,9 @@ RULE = ("every expression AST up to a node-count bound over atoms {a, b, [ab], [
         "form, x every input string over {a,b,c} up to the length bound, for cpppo.regex (str symbols) and "
         "cpppo.regex_bytes (and the string/string_bytes wrappers for small expressions); plus the multi-byte family: "
         "ASTs over atoms {e-acute, ., [^e-acute], a} for regex_bytes x every string over symbols {e-acute, e-circumflex, a} "
-        "(UTF-8 encoded; shapes whose construction raises the documented AssertionError are counted 'unsupported'); "
+        "(UTF-8 encoded; shapes whose construction raises the documented AssertionError are counted 'unsupported'), and the "
+        "same shapes with the 3-byte literal U+20AC (e2 82 ac) x every string over {U+20AC, U+20AD (e2 82 ad, shares two "
+        "bytes), U+2030 (e2 80 b0, shares the lead byte), a}; "
         "thorough adds every 2-way chunking (cut 0..n-1) and symbol-at-a-time feeding through cpppo.chainable.  "
         "evaluation = one run of a real machine on one (expression, machine kind, input, chunking); non-trivial = the "
         "input is non-empty and the reference prefix p is non-empty (the machine consumed something and had to decide "
@@ -35,15 +37,18 @@ RULE = ("every expression AST up to a node-count bound over atoms {a, b, [ab], [
 BOUNDS = {
     "quick": "AST size <= 4 (4175 expressions) x 364 strings (len <= 5 over {a,b,c}) x {regex, regex_bytes}, whole input; "
              "string/string_bytes wrappers for size <= 2; multi-byte family size <= 3 (170 expressions, 6 of them unsupported shapes) x 121 strings (len <= 4 over 3 symbols); "
+             "3-byte family size <= 3 (170 expressions, 6 unsupported) x 341 strings (len <= 4 over 4 symbols); "
              "chunked feeding for size <= 2 only",
     "thorough": "AST size <= 5 (44605 expressions) x 364 strings x {regex, regex_bytes} whole input; every 2-way chunking "
                 "and symbol-wise feeding for all expressions of size <= 4; wrappers for size <= 3; multi-byte family size <= 4 "
-                "(1770 expressions, 156 of them unsupported shapes) x 364 strings (len <= 5), whole, every 2-way byte chunking and byte-wise",
+                "(1770 expressions, 156 of them unsupported shapes) x 364 strings (len <= 5), whole, every 2-way byte chunking and byte-wise; "
+                "3-byte family size <= 4 (1770 expressions) x 341 strings (len <= 4), whole, every 2-way byte chunking and byte-wise",
 }
 ASSUMPTIONS = [
     "machines are built with terminal=True, greedy (the default) and a context, as README 'Detect if regular expression satisfied' documents",
     "input symbols come from the stated universes: {a,b,c} (c never occurs in an expression) and, for the multi-byte family, "
-    "{U+00E9 (c3 a9), U+00EA (c3 aa, same lead byte), a}; '.' and negated classes range over that universe",
+    "{U+00E9 (c3 a9), U+00EA (c3 aa, same lead byte), a} resp. {U+20AC (e2 82 ac), U+20AD (e2 82 ad), U+2030 (e2 80 b0), a}; "
+    "'.' and negated classes range over that universe (every symbol sharing a lead byte has the same encoded length, as in UTF-8)",
     "end of input is signalled the documented way: the source simply has no further symbol (no-progress detection ends the run)",
     "a machine object is reused for all inputs of one expression (documented usage); any mismatch is re-run on a fresh machine",
     "expressions with an empty language are not in the family (none is expressible with the stated atoms/operators)",
@@ -51,6 +56,13 @@ ASSUMPTIONS = [
 
 E_ACUTE = "é"
 E_CIRC = "ê"
+EURO, KIP, PERMILLE = "€", "₭", "‰"      # e2 82 ac | e2 82 ad (shares two bytes) | e2 80 b0 (shares the lead byte)
+# family -> input universe, the multi-byte literal of its expressions, a sibling symbol no expression mentions
+FAMILIES = {
+    "ascii": {"universe": "abc", "literal": None, "sibling": None},
+    "mb": {"universe": E_ACUTE + E_CIRC + "a", "literal": E_ACUTE, "sibling": E_CIRC},
+    "mb3": {"universe": EURO + KIP + PERMILLE + "a", "literal": EURO, "sibling": KIP},
+}
 REPS = [(0, None), (1, None), (0, 1), (0, 0), (0, 2), (1, 1), (1, 2), (2, 2)]
 PER_EXPR_KIND = 3        # deviations of one kind recorded (with fresh-machine confirmation) per expression and machine
 MAX_STEPS = 400          # generator yields allowed for one run before it is called a no-progress loop
@@ -118,7 +130,13 @@ def enumerate_exprs(maxsize, atoms):
 
 
 ASCII_ATOMS = [("cls", "a", False), ("cls", "b", False), ("cls", "ab", False), ("cls", "a", True), ("cls", "", True)]
-MB_ATOMS = [("cls", E_ACUTE, False), ("cls", "", True), ("cls", E_ACUTE, True), ("cls", "a", False)]
+
+
+def mb_atoms(literal):
+    return [("cls", literal, False), ("cls", "", True), ("cls", literal, True), ("cls", "a", False)]
+
+
+MB_ATOMS = mb_atoms(E_ACUTE)
 
 
 def mentions(n, ch):
@@ -392,6 +410,13 @@ def judge(kind, whole, obs, n, accepting, midsymbol):
 # K3  bytes-multibyte:vacuous-literal-machine-is-bytewise
 #       the multi-byte literal does not influence the language (e.g. '.|[^X]'); the machine behaves exactly like the
 #       byte-per-symbol machine of the same expression, i.e. '.' matches one byte of a multi-byte symbol
+# K5  bytes-multibyte:3-byte-symbol-continuation-state-overwritten
+#       from_regex numbers the second continuation state of a 3-byte symbol with an index the first one already uses
+#       (`add = len( states ); while add in machine.map`), so the state entered on the lead byte loses its transition on
+#       the second byte.  Given only when (a) the machine under test shows that signature (a state reached on the lead
+#       byte without a transition on the literal's second byte) and (b) the observation equals the prediction of a model
+#       of exactly that defect: after the lead byte only the wildcard (if live) applies and completes the "symbol" after
+#       two bytes; stray continuation bytes are then unknown symbols of their own
 # U1  upstream-greenery:wrong-language
 #       the automaton greenery itself builds for the printed expression prescribes, for this very input, something else
 #       than the expression's language does -- and the cpppo machine does exactly what greenery's automaton prescribes
@@ -400,6 +425,7 @@ def judge(kind, whole, obs, n, accepting, midsymbol):
 K1 = "bytes-multibyte:lead-byte-of-dead-symbol-absorbed"
 K2 = "bytes-multibyte:wildcard-rejects-symbol-sharing-lead-byte"
 K3 = "bytes-multibyte:vacuous-literal-machine-is-bytewise"
+K5 = "bytes-multibyte:3-byte-symbol-continuation-state-overwritten"
 U1 = "upstream-greenery:wrong-language"
 
 
@@ -407,8 +433,9 @@ class Diagnosis:
     """Per-expression lazy helpers for classifying a deviation.  Consults greenery directly -- for diagnosis only: the
     reference that decides whether there IS a deviation never does."""
 
-    def __init__(self, ref, expr, strings):
+    def __init__(self, ref, expr, strings, family="mb"):
         self.ref, self.expr, self.strings = ref, expr, strings
+        self.literal, self.sibling = FAMILIES[family]["literal"], FAMILIES[family]["sibling"]
         self._fsm = self._vacuous = None
 
     def fsm(self):
@@ -443,13 +470,13 @@ class Diagnosis:
         """the multi-byte literal never matters: swapping it for the other 2-byte symbol changes no membership (bounded)"""
         if self._vacuous is None:
             self._vacuous = all(
-                nullable(self.ref.residual(s)) == nullable(self.ref.residual(s.replace(E_ACUTE, E_CIRC)))
-                for s in self.strings if E_ACUTE in s)
+                nullable(self.ref.residual(s)) == nullable(self.ref.residual(s.replace(self.literal, self.sibling)))
+                for s in self.strings if self.literal in s)
         return self._vacuous
 
     def bytewise(self, whole):
         """prediction of the byte-per-symbol reading: every non-ASCII byte is one unknown symbol"""
-        mapped = "".join(chr(b) if b < 0x80 else E_CIRC for b in whole)
+        mapped = "".join(chr(b) if b < 0x80 else self.sibling for b in whole)
         n = 0
         for i in range(1, len(mapped) + 1):
             if is_empty(self.ref.residual(mapped[:i])):
@@ -457,16 +484,54 @@ class Diagnosis:
             n = i
         return n, (n >= 1 and nullable(self.ref.residual(mapped[:n])))
 
-    def root_cause(self, family, kind, s, whole, obs, n, accepting, mid):
-        """-> (kind, note) when the observation is mechanically explained by one of the four known mechanisms"""
+    def overwritten_signature(self, machine):
+        """some state reached on the literal's lead byte has no transition on the literal's second byte (raw dict look-ups)"""
+        enc = self.literal.encode("utf-8")
+        if len(enc) < 3:
+            return False
+        for st in machine.initial.nodes():
+            nxt = dict.get(st, enc[0])
+            if isinstance(nxt, dict) and not dict.__contains__(nxt, enc[1]):
+                return True
+        return False
+
+    def overwritten_model(self, whole):
+        """(consumed, terminal) predicted for a machine with the overwritten continuation state and nothing else wrong"""
+        ref, lead = self.ref, self.literal.encode("utf-8")[0]
+        step = lambda d, u: deriv(d, u, ref.memo)
+        d, k, i = ref.ast, 0, 0
+        while i < len(whole):
+            b = whole[i]
+            if b == lead:
+                wild = step(d, self.sibling)
+                if is_empty(step(d, self.literal)) and is_empty(wild):
+                    break                                   # refused at the lead byte
+                k = i = i + 1                               # lead byte consumed: in the crippled continuation state
+                if i >= len(whole) or is_empty(wild):
+                    return k, False                         # ... which only the wildcard leaves
+                d = wild
+                k = i = i + 1
+                continue
+            nd = step(d, chr(b) if b < 0x80 else self.sibling)
+            if is_empty(nd):
+                break
+            d = nd
+            k = i = i + 1
+        return k, (k >= 1 and nullable(d))
+
+    def root_cause(self, family, kind, s, whole, obs, n, accepting, mid, machine=None):
+        """-> (kind, note) when the observation is mechanically explained by one of the known mechanisms"""
         if obs["exc"] and obs["exc"] != "NonTerminal":
             return None, ""
         k = obs["sent"]
-        if family == "mb" and isinstance(whole, bytes):
+        if family != "ascii" and isinstance(whole, bytes):
             failed = not obs["terminal"]
+            if machine is not None and self.overwritten_signature(machine) \
+               and (k, obs["terminal"]) == self.overwritten_model(whole):
+                return K5, ""
             if k == n + 1 and not mid and whole[n] >= 0xC0 and failed:
                 return K1, ""
-            if 1 <= k < n and whole[k - 1] >= 0xC0 and whole[k - 1:k + 1] != E_ACUTE.encode("utf-8") and failed:
+            if 1 <= k < n and whole[k - 1] >= 0xC0 and not whole[k - 1:].startswith(self.literal.encode("utf-8")) and failed:
                 return K2, ""
             if self.vacuous() and (k, obs["terminal"]) == self.bytewise(whole):
                 return K3, ""
@@ -514,34 +579,34 @@ def outcome_class(n, accepting, whole, midsymbol):
 def expectation(ref, family, kind, s):
     byteswise = kind in ("regex_bytes", "string_bytes")
     whole = s.encode("utf-8") if byteswise else s
-    if byteswise and family == "mb":
+    if byteswise and family != "ascii":
         n, accepting, mid = ref.expect_bytes(s)
     else:
         (n, accepting), mid = ref.expect_symbols(s), False
     return whole, n, accepting, mid
 
 
-def verdicts(diag, family, kind, expr, s, whole, cuts, obs, n, accepting, mid):
+def verdicts(diag, family, kind, expr, s, whole, cuts, obs, n, accepting, mid, machine=None):
     """-> [(kind, msg)] for one observation: generic deviations, folded under a root-cause kind when one is recognised"""
     bad = judge(kind, whole, obs, n, accepting, mid)
     if not bad:
         return []
     head = "%s(%r) on %r%s: " % (kind, expr, whole, "" if cuts is None else " fed in pieces cut at %r" % (cuts,))
-    cause, note = diag.root_cause(family, kind, s, whole, obs, n, accepting, mid)
+    cause, note = diag.root_cause(family, kind, s, whole, obs, n, accepting, mid, machine)
     if cause:
         return [(cause, head + "; ".join(m for _k, m in bad) + note)]
-    prefix = "bytes-multibyte:other:" if family == "mb" else ""
+    prefix = "bytes-multibyte:other:" if family != "ascii" else ""
     return [(prefix + k, head + m) for k, m in bad]
 
 
 def check_expr(acc, family, ast, size, strings, kinds, chunk_kinds, seed):
     """All inputs x machine kinds for one expression.  The reference is computed first and cross-checked with re."""
     expr = show(ast)
-    universe = "abc" if family == "ascii" else E_ACUTE + E_CIRC + "a"
+    universe, literal = FAMILIES[family]["universe"], FAMILIES[family]["literal"]
     ref = Ref(ast, universe)
     for s in strings:
         ref.crosscheck(s, acc)
-    diag = Diagnosis(ref, expr, strings)
+    diag = Diagnosis(ref, expr, strings, family)
     acc.count("expressions")
     for kind in kinds:
         machine, why = build(kind, expr)
@@ -549,7 +614,7 @@ def check_expr(acc, family, ast, size, strings, kinds, chunk_kinds, seed):
             acc.outcome("construction:unsupported")
             acc.count("unsupported_%s" % family)
             acc.ev()
-            if family == "ascii" or not (mentions(ast, E_ACUTE) and mentions(ast, "a")):
+            if family == "ascii" or not (mentions(ast, literal) and mentions(ast, "a")):
                 acc.violation("construction-refused", {"family": family, "kind": kind, "ast": ast, "expr": expr,
                                                        "input": "", "cuts": None},
                               "construction of %s(%r) refused (%s) although no second symbol accompanies the multi-byte one"
@@ -575,7 +640,7 @@ def check_expr(acc, family, ast, size, strings, kinds, chunk_kinds, seed):
                     acc.count("chunked_runs")
                 if not judge(kind, whole, obs, n, accepting, mid):
                     continue
-                bad = verdicts(diag, family, kind, expr, s, whole, cuts, obs, n, accepting, mid)
+                bad = verdicts(diag, family, kind, expr, s, whole, cuts, obs, n, accepting, mid, machine)
                 for k, _m in bad:
                     acc.count("deviation:" + k)
                 if all(recorded.get(k, 0) >= PER_EXPR_KIND for k, _m in bad):
@@ -584,7 +649,7 @@ def check_expr(acc, family, ast, size, strings, kinds, chunk_kinds, seed):
                 # re-run on a fresh machine: a replayable case must not depend on what this machine saw before
                 fresh, _ = build(kind, expr)
                 obs2 = run_machine(fresh, kind, split(whole, cuts))
-                bad2 = verdicts(diag, family, kind, expr, s, whole, cuts, obs2, n, accepting, mid)
+                bad2 = verdicts(diag, family, kind, expr, s, whole, cuts, obs2, n, accepting, mid, fresh)
                 case = {"family": family, "kind": kind, "ast": ast, "expr": expr, "input": s, "cuts": cuts,
                         "maxlen": max(len(x) for x in strings)}
                 if bad2:
@@ -607,18 +672,17 @@ def all_strings(symbols, maxlen):
 
 def plan(tier):
     if tier == "quick":
-        return {"ascii_size": 4, "ascii_len": 5, "chunk_size": 2, "wrap_size": 2, "mb_size": 3, "mb_len": 4, "mb_chunks": False}
-    return {"ascii_size": 5, "ascii_len": 5, "chunk_size": 4, "wrap_size": 3, "mb_size": 4, "mb_len": 5, "mb_chunks": True}
+        return {"ascii_size": 4, "ascii_len": 5, "chunk_size": 2, "wrap_size": 2, "mb_size": 3, "mb_len": 4, "mb_chunks": False,
+                "mb3_size": 3, "mb3_len": 4}
+    return {"ascii_size": 5, "ascii_len": 5, "chunk_size": 4, "wrap_size": 3, "mb_size": 4, "mb_len": 5, "mb_chunks": True,
+            "mb3_size": 4, "mb3_len": 4}
 
 
 def shard(acc, item, tier, seed):
     family, entries = item
     pl = plan(tier)
     import random
-    if family == "ascii":
-        strings = all_strings("abc", pl["ascii_len"])
-    else:
-        strings = all_strings(E_ACUTE + E_CIRC + "a", pl["mb_len"])
+    strings = all_strings(FAMILIES[family]["universe"], pl[family + "_len"])
     if seed:
         random.Random(seed).shuffle(strings)
     for ast, size in entries:
@@ -659,8 +723,13 @@ def run(ctx):
     per = max(1, len(mb) // 60)
     for i in range(0, len(mb), per):
         items.append(("mb", [e[1] for e in mb[i:i + per]]))
+    mb3 = sorted(enumerate_exprs(pl["mb3_size"], mb_atoms(EURO)).items())
+    mb3 = [e for e in mb3 if mentions(e[1][0], EURO)]
+    per = max(1, len(mb3) // 60)
+    for i in range(0, len(mb3), per):
+        items.append(("mb3", [e[1] for e in mb3[i:i + per]]))
     acc = ctx.pmap(__name__, "shard", items)
-    acc.counters["expected_expressions"] = len(asc) + len(mb)
+    acc.counters["expected_expressions"] = len(asc) + len(mb) + len(mb3)
     return acc
 
 
@@ -676,15 +745,16 @@ def guards(acc, ctx):
         g.append("re cross-validation covered only %d pairs" % c.get("re_crosschecked", 0))
     if c.get("re_witness_checked", 0) < floor * 30:
         g.append("re witness validation covered only %d residuals" % c.get("re_witness_checked", 0))
-    for fam, least in (("ascii", 1000), ("mb", 50)):
+    for fam, least in (("ascii", 1000), ("mb", 50), ("mb3", 50)):
         for oc in ("accept-all-input", "accept-prefix-leave-rest", "reject-nothing-consumed", "reject-empty-input",
                    "reject-at-end-of-input", "reject-after-prefix"):
             if acc.outcomes.get("%s:%s" % (fam, oc), 0) < least:
                 g.append("outcome class %s:%s seen fewer than %d times" % (fam, oc, least))
-    if acc.outcomes.get("mb:stop-inside-symbol", 0) < 50:
-        g.append("multi-byte family never expects a stop inside a symbol")
-    if c.get("unsupported_mb", 0) < 5 or c.get("machines_mb", 0) < 100:
-        g.append("multi-byte family: unsupported=%r supported=%r" % (c.get("unsupported_mb"), c.get("machines_mb")))
+    for fam in ("mb", "mb3"):
+        if acc.outcomes.get(fam + ":stop-inside-symbol", 0) < 50:
+            g.append("multi-byte family %s never expects a stop inside a symbol" % fam)
+        if c.get("unsupported_" + fam, 0) < 5 or c.get("machines_" + fam, 0) < 100:
+            g.append("multi-byte family %s: unsupported=%r supported=%r" % (fam, c.get("unsupported_" + fam), c.get("machines_" + fam)))
     if c.get("unsupported_ascii", 0):
         g.append("a single-byte expression was refused at construction")
     if c.get("chunked_runs", 0) < 10000:
@@ -697,14 +767,14 @@ def guards(acc, ctx):
 def replay(case):
     ast = totuple(case["ast"])
     family, kind = case["family"], case["kind"]
-    universe = "abc" if family == "ascii" else E_ACUTE + E_CIRC + "a"
+    universe, literal = FAMILIES[family]["universe"], FAMILIES[family]["literal"]
     strings = all_strings(universe, case.get("maxlen") or 5)       # only the diagnosis (kind label) looks at other strings
     ref = Ref(ast, universe)
     expr = show(ast)
-    diag = Diagnosis(ref, expr, strings)
+    diag = Diagnosis(ref, expr, strings, family)
     machine, why = build(kind, expr)
     if machine is None:
-        if family == "ascii" or not (mentions(ast, E_ACUTE) and mentions(ast, "a")):
+        if family == "ascii" or not (mentions(ast, literal) and mentions(ast, "a")):
             return ["construction of %s(%r) refused: %s" % (kind, expr, why)]
         return []
 
@@ -712,7 +782,8 @@ def replay(case):
         cuts = None if cuts is None else list(cuts)
         whole, n, accepting, mid = expectation(ref, family, kind, s)
         obs = run_machine(machine, kind, split(whole, cuts))
-        return ["[%s] %s" % (k, m) for k, m in verdicts(diag, family, kind, expr, s, whole, cuts, obs, n, accepting, mid)]
+        return ["[%s] %s" % (k, m)
+                for k, m in verdicts(diag, family, kind, expr, s, whole, cuts, obs, n, accepting, mid, machine)]
 
     if case.get("history"):
         msgs = []
